@@ -653,6 +653,27 @@ class Program(object):
         self._pure[q] = ok
         return ok
 
+    def wildcard_immune(self, ci):
+        """attributes a `self.__dict__[k] = v` restore cannot touch: those created in __init__ before the loop that records
+        the infrastructure attribute names (they are excluded from every dump, so never restored)"""
+        key = ci.name if ci is not None else None
+        cache = self.__dict__.setdefault('_immune', {})
+        if key in cache:
+            return cache[key]
+        out = set()
+        init = ci.methods.get('__init__') if ci is not None else None
+        if init is not None:
+            snap = None
+            for n in ast.walk(init.node):
+                if isinstance(n, ast.For) and isinstance(n.iter, ast.Attribute) and n.iter.attr == '__dict__':
+                    snap = n
+            if snap is not None:
+                for acc in self.accesses(init, include_nested=False):
+                    if acc.kind in ('write', 'aug') and getattr(acc.node, 'lineno', 10 ** 9) < snap.lineno:
+                        out.add('A:' + acc.attr)
+        cache[key] = out
+        return out
+
     def callers_of(self, target):
         """[(func, call node)] for all resolved call sites of target in the package"""
         out = []
